@@ -333,6 +333,17 @@ func doNorm(d normDesc) {
 	var out []float64
 	crash := guard(func() { out = fromQ(toQ(d.Q).Normalize()) })
 	coq := ""
+	if crash == "" && finite(out...) { // Go-side: unit length, same direction
+		l := math.Sqrt(norm2(d.Q))
+		if n2 := norm2(out); math.Abs(n2-1) > 1e-9 {
+			crash = fmt.Sprintf("Normalize(q) is not a unit quaternion: |out|^2 - 1 = %g", n2-1)
+		}
+		for i := 0; i < 4 && crash == ""; i++ {
+			if math.Abs(out[i]*l-d.Q[i]) > 1e-9*l {
+				crash = fmt.Sprintf("Normalize(q)[%d] = %.17g, q[%d]/|q| = %.17g", i, out[i], i, d.Q[i]/l)
+			}
+		}
+	}
 	ok := crash == "" && finite(out...)
 	if ok {
 		coq = fmt.Sprintf("CNorm %s %s %s %s", qone(1e-9), qone(1e-9*maxabs(d.Q)), qlist(d.Q), qlist(out))
